@@ -113,6 +113,12 @@ type c33DepEvent struct {
 type c33DepCase struct {
 	Events []c33DepEvent `json:"events"`
 	Max    uint16        `json:"max"`
+	// SharedTx: all deposits are outputs 0, 1, 2 ... of ONE funding transaction
+	// (a depositor funding several deposits at once) instead of one transaction each.
+	SharedTx bool `json:"shared_tx,omitempty"`
+	// Twice: the search runs twice on the same task object (two coordination windows);
+	// the second result is judged.
+	Twice bool `json:"twice,omitempty"`
 }
 
 func (c c33DepCase) String() string {
@@ -120,7 +126,22 @@ func (c c33DepCase) String() string {
 	for _, e := range c.Events {
 		fmt.Fprintf(&b, "%s@%d ", c33DepKinds[e.K].name, c33DepBlocks[e.B])
 	}
-	return fmt.Sprintf("deposits[%s] max=%d", strings.TrimSpace(b.String()), c.Max)
+	s := fmt.Sprintf("deposits[%s] max=%d", strings.TrimSpace(b.String()), c.Max)
+	if c.SharedTx {
+		s += " one-funding-tx"
+	}
+	if c.Twice {
+		s += " second-search"
+	}
+	return s
+}
+
+// c33DepOutpoint is the funding outpoint of event i of a case.
+func (c c33DepCase) outpoint(i int) (bitcoin.Hash, uint32) {
+	if c.SharedTx {
+		return c33DepHash(0), uint32(i)
+	}
+	return c33DepHash(i), 0
 }
 
 func c33DepHash(i int) bitcoin.Hash { return bitcoin.Hash{byte(i + 1), 0xd0} }
@@ -137,15 +158,15 @@ func c33RunDeposits(r *vrep.R, c c33DepCase) {
 		if k.other {
 			w = c33Other
 		}
-		h := c33DepHash(i)
+		h, oi := c.outpoint(i)
 		ch.deposits = append(ch.deposits, &tbtc.DepositRevealedEvent{
-			FundingTxHash: h, FundingOutputIndex: 0, WalletPublicKeyHash: w, BlockNumber: c33DepBlocks[e.B], Amount: 100000,
+			FundingTxHash: h, FundingOutputIndex: oi, WalletPublicKeyHash: w, BlockNumber: c33DepBlocks[e.B], Amount: 100000,
 		})
 		swept := time.Unix(0, 0)
 		if k.swept {
 			swept = now.Add(-10 * time.Second)
 		}
-		lc.SetDepositRequest(h, 0, &tbtc.DepositChainRequest{
+		lc.SetDepositRequest(h, oi, &tbtc.DepositChainRequest{
 			Amount:     100000,
 			RevealedAt: now.Add(-time.Duration(c33DepositMinAge+k.age) * time.Second),
 			SweptAt:    swept,
@@ -159,6 +180,9 @@ func c33RunDeposits(r *vrep.R, c c33DepCase) {
 	var err error
 	p, stack := vrep.Guard(func() {
 		got, err = task.FindDepositsToSweep(&testutils.MockLogger{}, c33Wallet, c.Max)
+		if c.Twice && err == nil {
+			got, err = task.FindDepositsToSweep(&testutils.MockLogger{}, c33Wallet, c.Max)
+		}
 	})
 	report := func(kind, what string) {
 		r.ViolationMin("deposits:"+kind, len(c.Events)*10+int(c.Max), "deposits:"+kind+" "+c.String(), c.String()+": "+what, map[string]any{"deposits": c})
@@ -177,7 +201,7 @@ func c33RunDeposits(r *vrep.R, c c33DepCase) {
 	for _, d := range got {
 		found := -1
 		for i := range c.Events {
-			if c33DepHash(i) == d.FundingTxHash && d.FundingOutputIndex == 0 {
+			if h, oi := c.outpoint(i); h == d.FundingTxHash && d.FundingOutputIndex == oi {
 				found = i
 			}
 		}
@@ -277,14 +301,35 @@ func c33Deposits(r *vrep.R, maxEvents int) {
 				el++
 			}
 		}
-		for _, max := range []uint16{0, 1, 2} {
-			c := c33DepCase{ev, max}
-			c33RunDeposits(r, c)
-			if el >= 1 && len(ev) >= 2 {
-				r.Distinct(c.String())
+		// one funding transaction for all deposits: only where all events have the same
+		// confirmation count (it is a property of the transaction)
+		sameConf := true
+		for _, e := range ev {
+			k := c33DepKinds[e.K]
+			if k.noconf || k.conf != c33DepKinds[ev[0].K].conf {
+				sameConf = false
 			}
 		}
-		r.Eval(3)
+		n := 0
+		for _, max := range []uint16{0, 1, 2} {
+			for _, shared := range []bool{false, true} {
+				if shared && (!sameConf || len(ev) < 2) {
+					continue
+				}
+				for _, twice := range []bool{false, true} {
+					if twice && max != 0 && !shared {
+						continue
+					}
+					c := c33DepCase{Events: ev, Max: max, SharedTx: shared, Twice: twice}
+					c33RunDeposits(r, c)
+					n++
+					if el >= 1 && len(ev) >= 2 {
+						r.Distinct(c.String())
+					}
+				}
+			}
+		}
+		r.Eval(n)
 	})
 }
 
